@@ -518,6 +518,14 @@ pub fn plan_creator(w: &World, _k: &Knobs, actor: &mut Actor, l: &Ledger, now: i
             if !pools.is_empty() {
                 let (wk, p) = &pools[rng.idx(pools.len())];
                 let n_init = p.rewards.iter().filter(|r| r.initialized()).count() as u8;
+                // one time in three the reward is paid in one of the pool's OWN tokens (admitted when the pool was created,
+                // perhaps with a badge that has been deleted since): it is admitted again, or not, on its present merits
+                let (mint, owner) = if rng.chance(1, 3) {
+                    let m = if rng.chance(1, 2) { p.mint_a } else { p.mint_b };
+                    (m, l.get(&m).map(|a| a.owner).unwrap_or(owner))
+                } else {
+                    (mint, owner)
+                };
                 flow.push((
                     tx1(ix::mk(
                         wa::InitializeRewardV2 {
